@@ -120,12 +120,22 @@ impl Block for SymbolSync {
         if o.is_empty() {
             return Ok(BlockRet::WaitForStream(&self.dst, 1));
         }
+        if self.out_clock.as_ref().is_some_and(|clock| clock.free() == 0) {
+            // One clock sample goes with every output sample.
+            let clock = self.out_clock.as_ref().expect("checked right above");
+            return Ok(BlockRet::WaitForStream(clock, 1));
+        }
         // TODO: get rid of unwrap.
         let mut out_clock = self.out_clock.as_mut().map(|x| x.write_buf().unwrap());
 
         let mut n = 0; // Samples consumed.
         let mut opos = 0; // Current output position.
-        let olen = o.len();
+        // The clock stream gets one sample per output sample: never emit more
+        // than both have room for.
+        let olen = match out_clock {
+            Some(ref clock) => std::cmp::min(o.len(), clock.len()),
+            None => o.len(),
+        };
         let oslice = o.slice();
         for sample in input.iter() {
             n += 1;
